@@ -323,12 +323,21 @@ func TestRaceFree(t *testing.T) {
 		res.Iterations[name] = n
 		for w := 0; w < 3; w++ {
 			wg.Add(1)
-			go func(fn func(int), w int) {
+			go func(name string, fn func(int), w int) {
 				defer wg.Done()
 				for i := w; i < n; i += 3 {
-					fn(i)
+					// an iteration takes microseconds; one that has not finished after 120 s is blocked for good
+					// (the goroutines it left behind are abandoned)
+					done := make(chan struct{})
+					go func() { fn(i); close(done) }()
+					select {
+					case <-done:
+					case <-time.After(120 * time.Second):
+						failf("%s#%d: the scenario has not finished after 120 s (a Send, Subscribe or Unsubscribe is blocked for good)", name, i)
+						return
+					}
 				}
-			}(fn, w)
+			}(name, fn, w)
 		}
 	}
 	wg.Wait()
